@@ -1171,8 +1171,8 @@ def run_raw_case(ctx, case) -> None:
 def run(ctx) -> None:
     vloop.selftest()
     max_ops = ctx.pick(15, 40)
-    ctx.hyp('world', lambda c: run_world_case(ctx, c), world_cases(max_ops), max_examples=ctx.n(1100, 44000))
-    ctx.hyp('raw', lambda c: run_raw_case(ctx, c), raw_ops(max_ops), max_examples=ctx.n(400, 16000))
+    ctx.hyp('world', lambda c: run_world_case(ctx, c), world_cases(max_ops), max_examples=ctx.n(1100, 36000))
+    ctx.hyp('raw', lambda c: run_raw_case(ctx, c), raw_ops(max_ops), max_examples=ctx.n(400, 12000))
     for label in (
         'reopen_after_close', 'reopen_after_refusal', 'reopen_after_abort', 'concurrent_two_links',
         'cut_with_pending_op', 'cut_by_central', 'cut_by_peripheral', 'close_by_central', 'close_by_peripheral',
